@@ -22,8 +22,9 @@
 (*     batch_*      the one-shot (information-form / weighted least squares)    *)
 (*                  Gauss-Markov solution of the stacked linear system          *)
 (* ------------------------------------------------------------------------- *)
-From Coq Require Import List QArith Bool Arith.
+From Coq Require Import List QArith Bool Arith Qcanon.
 From PV Require Import Model.FeedbackSched Model.FeedforwardSched.
+From PV Require Model.Integrator Model.SensorModel.
 Import ListNotations.
 Open Scope Q_scope.
 
@@ -90,32 +91,74 @@ Arguments corr_epoch {state} corr sensors t s m.
 Arguments row_epochs times epochs i : assert.
 Arguments kalman_grid {state} corr prop times sensors epochs steps s.
 
-(* ---- one cycle of the feedback filter at a measurement epoch (C12) -------- *)
-(*  x = np.zeros(n_states)
-    for measurement in measurements: x, P, innovation = kalman.correct(x, P, ...)
-    integrator.set_pva(error_model.correct_pva(integrator.get_pva(), x[ins_block]))
-    gyro_model.update_estimates(x[gyro_block]); accel_model.update_estimates(x[accel_block])
-   The navigation state and the sensor estimates absorb x; the next cycle starts from x = 0. *)
-Section FeedbackCycle.
-  Variables X Cov Nav Est : Type.
-  Variable zero : X.
-  Variable corrs : X * Cov -> X * Cov.                 (* the corrections of the epoch *)
-  Variable correct_pva : Nav -> X -> Nav.
-  Variable update_est : Est -> X -> Est.
+(* ---- C12: the feedback loop as a client of the strapdown integrator ---------- *)
+(*  One outer iteration of run_feedback_filter without a pending measurement epoch:
+        time = integrator.get_time()                                   GetTime
+        increments_batch = _correct_increments(increments.iloc[a:b], ...)
+        pva_old = integrator.get_pva()                                 GetPva
+        integrator.integrate(increments_batch)                         Integrate chunk
+        pva_new = integrator.get_pva()                                 GetPva
+        time_delta = integrator.get_time() - time                      GetTime
+    `data` = the rows of the (corrected) increment table; what the loop does at a measurement
+    epoch (predict, get_pva, set_pva with data-dependent arguments) is the parameter on_innov. *)
+Definition fb_integrator_ops {prow inc : Type}
+           (on_innov : nat -> Q -> Q -> list (Integrator.op prow inc))
+           (data : list inc) (tr : list event) : list (Integrator.op prow inc) :=
+  flat_map (fun e => match e with
+                     | Integrate a b =>
+                         [Integrator.GetTime; Integrator.GetPva;
+                          Integrator.Integrate (firstn (b - a) (skipn a data));
+                          Integrator.GetPva; Integrator.GetTime]
+                     | Innov k m t => on_innov k m t
+                     | _ => []
+                     end) tr.
 
-  Definition fb_cycle (s : Nav * Est * Cov) : Nav * Est * Cov :=
-    let '(nav, est, P) := s in
-    let xp := corrs (zero, P) in
-    (correct_pva nav (fst xp), update_est est (fst xp), snd xp).
+(* ---- C12: a filter run as a client of one EstimationModel's estimate state ---- *)
+(*  The operations a run performs on (transform, bias) of a sensor model, and what it observes.
+    The next operation may depend on everything observed so far (the Kalman state that is fed to
+    update_estimates depends on the corrected increments): a run is a CLIENT, i.e. a function from
+    the history of observations to the next operation. *)
+Inductive est_op : Type :=
+| EReset                                                   (* reset_estimates() *)
+| EUpdate (x : list Qc)                                    (* update_estimates(x) *)
+| EGet                                                     (* get_estimates() *)
+| ECorrect (dt : Qc) (v : SensorModel.V3 Qc).              (* correct_increments(dt, row) *)
 
-  (* the feedforward filter at the same epoch carries x and leaves nav / est alone;
-     its OUTPUT is computed from (nav, est) and x *)
-  Definition ff_cycle (s : Nav * Est * (X * Cov)) : Nav * Est * (X * Cov) :=
-    let '(nav, est, xp) := s in (nav, est, corrs xp).
-End FeedbackCycle.
+Inductive est_obs : Type :=
+| ONone
+| ORaised                                                  (* the call raised *)
+| OEstimates (g : list Qc)
+| OCorrected (v : SensorModel.V3 Qc).
 
-Arguments fb_cycle {X Cov Nav Est} zero corrs correct_pva update_est s.
-Arguments ff_cycle {X Cov Nav Est} corrs s.
+Definition est_step (m : SensorModel.emodel) (o : est_op) (st : SensorModel.est)
+  : SensorModel.est * est_obs :=
+  match o with
+  | EReset => (SensorModel.reset, ONone)
+  | EUpdate x => match SensorModel.update m x st with
+                 | Some st' => (st', ONone)
+                 | None => (st, ORaised)
+                 end
+  | EGet => match SensorModel.get_estimates m st with
+            | Some g => (st, OEstimates g)
+            | None => (st, ORaised)
+            end
+  | ECorrect dt v => match SensorModel.correct_increments st dt v with
+                     | Some w => (st, OCorrected w)
+                     | None => (st, ORaised)
+                     end
+  end.
+
+Fixpoint est_play (m : SensorModel.emodel) (client : list est_obs -> option est_op)
+         (fuel : nat) (hist : list est_obs) (st : SensorModel.est)
+  : SensorModel.est * list est_obs :=
+  match fuel with
+  | O => (st, hist)
+  | S f =>
+      match client hist with
+      | None => (st, hist)
+      | Some o => let r := est_step m o st in est_play m client f (hist ++ [snd r]) (fst r)
+      end
+  end.
 
 (* ---- the free state algebra: provenance of every (x, P) -------------------- *)
 Inductive sterm : Type :=
@@ -201,6 +244,9 @@ Section KalmanOps.
   Definition cov_ok (s : kstate) : Prop := s.2^T = s.2 /\ psd s.2.
 End KalmanOps.
 
+(* np.diag(q ** 2) *)
+Definition diag_sq (F : fieldType) (k : nat) (u : 'cV[F]_k) : 'M[F]_k := diag_mx (\row_j (u j 0) ^+ 2).
+
 (* ---- block layout of the assembly functions -------------------------------- *)
 Section Assembly.
   Variable F : realFieldType.
@@ -235,7 +281,6 @@ Section Assembly.
   Definition asm_q : 'cV[F]_nn := col_mx v_g (col_mx v_a (col_mx q_g q_a)).
 
   (* G @ np.diag(q**2) @ G.transpose() *)
-  Definition diag_sq (k : nat) (u : 'cV[F]_k) : 'M[F]_k := diag_mx (\row_j (u j 0) ^+ 2).
   Definition asm_Q : 'M[F]_n := asm_G *m diag_sq asm_q *m asm_G^T.
 
   (* Phi, Qd = kalman.compute_process_matrices(F, Q, time_delta): the GENERATED terms *)
@@ -311,3 +356,45 @@ Section Batch.
     | S N' => qc_time (Phis N') (Qds N') (qc_meas (zs N') (Hs N') (Rs N') (batch_cost N' c))
     end.
 End Batch.
+
+(* ---- C12: one measurement epoch in both filters ------------------------------ *)
+Section Cycle.
+  Variable F : realFieldType.
+  Variables ni ns : nat.                        (* inertial states, sensor-parameter states *)
+  Local Notation n := (ni + ns)%N.
+  Variable md : nat -> nat.
+  Variable Hs : forall k : nat, 'M[F]_(md k, n).
+  Variable Rs : forall k : nat, 'M[F]_(md k).
+  Variable chols : forall k : nat, 'M[F]_(md k) -> 'M[F]_(md k).
+
+  (* `for measurement in measurements: x, P, innovation = kalman.correct(x, P, z, H_full, R)`
+     for the first N measurement blocks of the epoch (GENERATED terms) *)
+  Fixpoint corr_run (zs : forall k : nat, 'cV[F]_(md k)) (N : nat) (s : 'cV[F]_n * 'M[F]_n)
+    : 'cV[F]_n * 'M[F]_n :=
+    match N with
+    | O => s
+    | S N' =>
+        let s1 := corr_run zs N' s in
+        (@correct_ret0 F n (md N') (@chols N') s1.1 s1.2 (zs N') (Hs N') (Rs N'),
+         @correct_ret1 F n (md N') (@chols N') s1.2 (Hs N') (Rs N'))
+    end.
+
+  Variable Nav : Type.
+  (* error_model.correct_pva(pva, x_ins) in the linearised world: an action of the additive group of
+     error vectors (the real correct_pva is such an action to first order: C05) *)
+  Variable sub : Nav -> 'cV[F]_ni -> Nav.
+
+  (* feedback: x = 0; corrections; set_pva(correct_pva(get_pva(), x[ins]));
+     update_estimates(x[sensor]) (estimates accumulate additively: C14 accumulate) *)
+  Definition fb_cycle (zs : forall k : nat, 'cV[F]_(md k)) (N : nat)
+             (s : Nav * 'cV[F]_ns * 'M[F]_n) : Nav * 'cV[F]_ns * 'M[F]_n :=
+    let xp := corr_run zs N (0, s.2) in
+    (sub s.1.1 (usubmx xp.1), s.1.2 + dsubmx xp.1, xp.2).
+
+  (* feedforward: the state x is carried; the OUTPUT is the uncorrected trajectory minus T x and the
+     sensor block of x *)
+  Definition ff_cycle (zs : forall k : nat, 'cV[F]_(md k)) (N : nat)
+             (s : 'cV[F]_n * 'M[F]_n) : 'cV[F]_n * 'M[F]_n := corr_run zs N s.
+  Definition ff_output (nav_raw : Nav) (s : 'cV[F]_n * 'M[F]_n) : Nav * 'cV[F]_ns * 'M[F]_n :=
+    (sub nav_raw (usubmx s.1), dsubmx s.1, s.2).
+End Cycle.
